@@ -226,10 +226,15 @@ func init() {
 			return nil
 		},
 		V + "Note": func(th *Thread, _ *frame, _ token.Pos, _ *ssa.Function, a []Value) Value {
+			th.curOp = th.R.concreteString(a[0], "Note label")
 			return nil
 		},
 		V + "Share": func(th *Thread, _ *frame, _ token.Pos, _ *ssa.Function, a []Value) Value {
-			th.R.share(a[0])
+			th.R.share(a[0], true)
+			return nil
+		},
+		V + "ShareNoRaceCheck": func(th *Thread, _ *frame, _ token.Pos, _ *ssa.Function, a []Value) Value {
+			th.R.share(a[0], false)
 			return nil
 		},
 		V + "Par": func(th *Thread, caller *frame, pos token.Pos, _ *ssa.Function, a []Value) Value {
